@@ -7,7 +7,7 @@ int main(int argc, char** argv)
     vrf::init(argc, argv, "C01");
     // exclusive operations only (ordered_guarded::load is shared and belongs to C02, but its windows are compatible: reads)
     const uint32_t allowed = (1u << LOCK) | (1u << TRY) | (1u << TRY_FOR) | (1u << TRY_UNTIL) | (1u << LOAD) | (1u << STORE) | (1u << ASSIGN) |
-        (1u << MODIFY) | (1u << MODIFY_RET);
+        (1u << MODIFY) | (1u << MODIFY_RET) | (1u << CAST);
     for (long r = 0; r < vrf::cfg.rounds; r++) {
         if (!vrf::want_round(r)) continue;
         vrf::Round R(r);
